@@ -434,7 +434,7 @@ Lemma make_core_lt z b m : zob_ok z -> cur_hash b < two64 ->
   exists h, h < two64 /\ fst (make z b m) = set_hashes (core b m) (h :: hashes (core b m)).
 Proof.
   intros Hz Hcur. pose proof Hz as [Hz1 [Hz2 [Hz3 Hz4]]].
-  unfold make, core, new_fifty, new_ep. rewrite lxor_cancel.
+  unfold make, make_l, core, new_fifty, new_ep. rewrite lxor_cancel.
   set (b0 := set_castles _ _).
   pose proof (remove_piece_snd_lt z b0 (flip (stm b)) (piece_at b (capture_sq b m)) (capture_sq b m) Hz) as L1.
   destruct (remove_piece z b0 _ _ _) as [b1 h1] eqn:E1. cbn [snd] in L1.
